@@ -12,6 +12,7 @@ nothing. `bodies_recognised` / `bodies_wf`: the covered bodies contain no statem
 language and satisfy the side conditions under which `evalBody` is the Go semantics.
 -/
 import VaxisModel.Lemmas.EmuBody
+import VaxisModel.Lemmas.EmuBodyRow
 
 namespace VaxisModel.Props.C05Bodies
 open VaxisModel.Model.Emu VaxisModel.Model.EmuBody VaxisModel.Lemmas.Emu VaxisModel.Lemmas.EmuBody VaxisModel.Gen
@@ -122,6 +123,15 @@ theorem body_dch (e : Emu) (n : Int) : evalBody TermBodies.body_dch [] [n] e = d
   body_norm
   simp only [cellCopy_same_row]
   body_fin
+
+/-- ICH: the body works through the alias `line := vt.activeScreen[row]`; the model loops over that
+    row and stores it back (`Lemmas/EmuBodyRow.lean` relates the two). -/
+theorem body_ich (e : Emu) (n : Int) : evalBody TermBodies.body_ich [] [n] e = ich Fixes.current e n := by
+  simp only [TermBodies.body_ich, TermBodies.stmt_ich, ich]
+  body_norm
+  split
+  · exact ich_core e 1 _
+  · exact ich_core e n _
 
 /-! ### coverage -/
 
